@@ -9,6 +9,10 @@ the map, nothing in the mapped wrapper chain draws random numbers, results are
 consumed by the loop index; the default map preserves order; ensembles map the
 member list positionally and reduce by slot; nothing reachable from Step/Solve
 builds a private or time/pid-seeded generator.
+Round 3: no configuration method or initial-point setter reads a setting owned
+by another one; the raw cost gets a copy in-process as it does under a process
+map; the two closures the ensemble maps (_step / _solve) are siblings around
+their run call.
 NOT decided: identity of trajectories, step-wise vs run-to-completion equality,
 process maps, hash randomisation of message strings.
 """
